@@ -127,6 +127,16 @@ func c06Histories() []c06History {
 			dup := ex(t, "a", "echo2", nil)
 			return [][]rig.ExecSpec{{a, dup}, {ex(t, "b", "echo", nil)}}
 		}, false, false},
+		{"refused-calls-that-carry-signal-channels", func(t string) [][]rig.ExecSpec {
+			// calls that fail before their work-start is out (a run ID that is in flight, an input that cannot be
+			// encoded) and that were given signal channels: open ones, ones with signals queued; then Close
+			a := withSignals(ex(t, "a", "sig", map[string]any{"mode": "gated"}), 1)
+			dup := withSignals(ex(t, "a", "sig", nil), 2)
+			dupOpen := ex(t, "a", "echo", nil)
+			dupOpen.NoSigCh, dupOpen.HoldSigCh = false, true
+			bad := withSignals(rig.ExecSpec{RunID: t + "-bad", StepID: "sig", Input: map[string]any{"nonce": t + "-bad", "n": make(chan int)}}, 1)
+			return [][]rig.ExecSpec{{a, dup, dupOpen, bad}}
+		}, false, false},
 		{"nan-and-inf-inputs-then-close", func(t string) [][]rig.ExecSpec {
 			return [][]rig.ExecSpec{{ex(t, "a", "echo", map[string]any{"payload": 0.5})}, {ex(t, "b", "echo", map[string]any{"payload": math.NaN()})}, {ex(t, "c", "echo", map[string]any{"payload": []any{math.Inf(1), math.Inf(-1)}})}}
 		}, false, false},
